@@ -625,6 +625,7 @@ class Ctx:
             return True
         self._reported.add(sig)
         self.nviol += 1
+        self.nconcrete = getattr(self, 'nconcrete', 0) + 1
         self.exit = 1
         path = self._write_replay(kind, dict(replay, kind=kind, fields=fields,
                                             what=what))
@@ -639,6 +640,12 @@ class Ctx:
         if sig in self._reported:
             return
         self._reported.add(sig)
+        if getattr(self, 'nconcrete', 0):
+            # a failing input is already on the table: the obligation that no
+            # longer checks is recorded, the verdict is the violation reported
+            self.extra.setdefault('broken_obligations_beside_a_failing_input', []).append(what)
+            print('[%s] no longer checks (a failing input was already reported): %s' % (self.pid, what), flush=True)
+            return
         self.nviol += 1
         self.exit = 1
         obj = dict(replay or {})
